@@ -171,6 +171,48 @@ func keyWiseCopy(info *types.Info, rs *ast.RangeStmt) string {
 		return "key or value not bound"
 	}
 	body := rs.Body.List
+	// leading `if <test of the key alone> { continue }` guards: entries are skipped one by one,
+	// whatever the visiting order
+	keyOnlyTest := func(e ast.Expr) bool {
+		e = unparen(e)
+		if u, ok := e.(*ast.UnaryExpr); ok && u.Op == token.NOT {
+			e = unparen(u.X)
+		}
+		c, ok := e.(*ast.CallExpr)
+		if !ok || len(c.Args) != 1 || objOf(info, c.Args[0]) != k {
+			return false
+		}
+		if cal := calleeOf(info, c); cal != nil {
+			return cal.Name() == "Has"
+		}
+		// a predicate value (func(key) bool) handed to the function
+		tv, ok := info.Types[c.Fun]
+		if !ok {
+			return false
+		}
+		sig, ok := tv.Type.Underlying().(*types.Signature)
+		return ok && sig.Params().Len() == 1 && sig.Results().Len() == 1 && isBasicKind(sig.Results().At(0).Type(), types.Bool)
+	}
+	for len(body) > 1 {
+		ifs, ok := body[0].(*ast.IfStmt)
+		if !ok || ifs.Init != nil || ifs.Else != nil || len(ifs.Body.List) != 1 {
+			break
+		}
+		br, ok := ifs.Body.List[0].(*ast.BranchStmt)
+		if !ok || br.Tok != token.CONTINUE || br.Label != nil {
+			break
+		}
+		okGuard := true
+		for _, d := range disjuncts(ifs.Cond) {
+			if !keyOnlyTest(d) {
+				okGuard = false
+			}
+		}
+		if !okGuard {
+			break
+		}
+		body = body[1:]
+	}
 	if len(body) != 1 {
 		return fmt.Sprintf("body has %d statements, expected a single insertion", len(body))
 	}
@@ -473,7 +515,9 @@ func globalStoreRule(r *Run, rule string) {
 					continue
 				}
 				name := strings.TrimPrefix(base, "global:")
-				if cv != nil && name == "plush."+cv.Name() && (fn.Name() == "Parse" || fn.Name() == "CacheSet") && fnRel(fn) == "" {
+				// the template cache: written by the package's own (non-evaluator) functions; that every
+				// access happens under the cache mutex is C14.R2, which looks at every function that touches it
+				if cv != nil && name == "plush."+cv.Name() && fnRel(fn) == "" && fn.Signature.Recv() == nil {
 					r.Ok(rule, ssaName(fn), "store to "+name, w.Pos(ins.Pos()), "the cache, written under its lock (C14.R2)")
 					continue
 				}
